@@ -51,7 +51,16 @@ def lemma_tags(spec_path: str) -> Dict[str, List[str]]:
     """proof fn name -> properties it serves (`// serves: C01 C02` comment before it); [] = all"""
     tags: Dict[str, List[str]] = {}
     cur: Optional[List[str]] = None
-    for line in open(spec_path):
+    def read_lines(pth, depth=0):
+        out = []
+        for raw in open(pth).readlines():
+            m = re.match(r"\s*@include\s+(\S+)", raw)
+            if m and depth < 5:
+                out += read_lines(os.path.join(os.path.dirname(pth), m.group(1)), depth + 1)
+            else:
+                out.append(raw)
+        return out
+    for line in read_lines(spec_path):
         m = re.match(r"\s*//\s*serves:\s*(.*)$", line)
         if m:
             cur = m.group(1).split(); continue
@@ -142,7 +151,8 @@ def scan_trusted(text: str) -> List[str]:
 
 def forbidden_in_specs(spec_path: str) -> List[str]:
     bad = []
-    for i, l in enumerate(open(spec_path), 1):
+    paths = [spec_path] + [os.path.join(os.path.dirname(spec_path), m) for m in re.findall(r"(?m)^\s*@include\s+(\S+)", open(spec_path).read())]
+    for i, l in enumerate([x for pp in paths for x in open(pp)], 1):
         code = l.split("//")[0]
         if re.search(r"\bassume\s*\(|\badmit\s*\(|external_body|assume_specification|\baxiom\b", code):
             bad.append(f"{os.path.basename(spec_path)}:{i}: {l.strip()}")
